@@ -196,7 +196,10 @@ def build_sigmap(case, keys: Keys, Pb, Qb, r: random.Random, nonascii=True, surr
         if v[0] != "absent":
             items.append((keys.pub[k], val))
     if case.get("alt") and case["alt"][0] != "absent":
-        items.append((alt_name(keys, 1, r, nonascii), entry_value(case["alt"], 1, keys, Pb, Qb, r, surrogates, nonascii)))
+        an = alt_name(keys, 1, r, nonascii)
+        if names_out is not None:
+            names_out["alt"] = an
+        items.append((an, entry_value(case["alt"], 1, keys, Pb, Qb, r, surrogates, nonascii)))
     if case.get("junk") and case["junk"][0] != "absent":
         items.append((junk_name(r, nonascii, surrogates), entry_value(case["junk"], 1, keys, Pb, Qb, r, surrogates, nonascii)))
     r.shuffle(items)
